@@ -217,8 +217,15 @@ func (c16Harness) Run(spec any) (res verifsim.RunResult) {
 				return
 			}
 			rctx, rcancel := context.WithCancel(context.Background())
+			hostListed := make(chan struct{}, 1)
 			verifsim.Go("H>read", func() {
 				collect(c, &hostOut, rctx, func(env protocol.Envelope) {
+					if env.Type == protocol.TypePeerList {
+						select {
+						case hostListed <- struct{}{}:
+						default:
+						}
+					}
 					// the host answers the receiver's first message (one message per peer:
 					// within every message-rate configuration of the grid)
 					if exchange && env.Type == protocol.TypeOffer && env.From == sp.RecvID {
@@ -226,6 +233,13 @@ func (c16Harness) Run(spec any) (res verifsim.RunResult) {
 					}
 				})
 			})
+			// the receiver is started once the host has its peer list: a completed WebSocket
+			// upgrade does not mean the server has registered the peer yet, and a message to a
+			// peer that is not registered is answered with peer_not_found (C10's premise, too)
+			select {
+			case <-hostListed:
+			case <-time.After(300 * time.Millisecond):
+			}
 			hostReady <- struct{}{}
 			time.Sleep(800 * time.Millisecond) // stays below the smallest idle/session timeouts of the grid
 			rcancel()
